@@ -119,16 +119,29 @@ def rule_class_tables_agree(ctx):
     mod = TYPE.rsplit("::", 1)[0]
     fns = [b for b in prog.lib_bodies() if b.kind != "closure" and b.path.startswith(mod + "::")]
     reducers = [b for b in fns if b.ret_ty.startswith("(") and "AAFramework<" in b.ret_ty and "Vec<usize>" in b.ret_ty]
-    if not r.require_anchor(len(reducers) == 1, "the function building (reduced framework, init->reduced table)"):
+    if len(reducers) != 1:
+        # the reduction is split over helpers: every function of the module that receives the class list is looked at
+        reducers = [b for b in fns if not (b.impl and b.impl.get("self_adt") == TYPE) and any(re.match(r"^&\[.*\]$|^&alloc::vec::Vec<", b.local_ty(k)) and mod in b.local_ty(k) for k in range(1, b.n_args + 1))]
+    if not r.require_anchor(reducers, "a function of %s receiving the class list" % mod):
         return
-    R = reducers[0]
+    n_w = 0
+    n_lab = 0
+    for R in reducers:
+        n_w, n_lab = _tables_of_reducer(prog, r, R, mod, n_w, n_lab)
+    r.floor(n_w, 1, "writes of the init->reduced table")
+    r.floor(n_lab, 1, "ArgumentSet::new_with_labels calls building the reduced argument set")
+    _accessors_and_constructor(prog, r, adt, fns, mod)
+
+
+def _tables_of_reducer(prog, r, R, mod, n_w, n_lab):
+    from ..prov import expand_params
+
     cls_params = [k for k in range(1, R.n_args + 1) if re.match(r"^&\[.*\]$|^&alloc::vec::Vec<", R.local_ty(k)) and mod in R.local_ty(k)]
     af_params = [k for k in range(1, R.n_args + 1) if "AAFramework<" in R.local_ty(k)]
-    if not r.require_anchor(len(cls_params) == 1 and len(af_params) == 1, "class-list and framework parameters of " + R.path):
-        return
-    CL, AF = cls_params[0], af_params[0]
+    if len(cls_params) != 1:
+        return n_w, n_lab
+    CL, AF = cls_params[0], (af_params[0] if len(af_params) == 1 else None)
     # --- table writes
-    n_w = 0
     for y in prog.with_closures(R):
         for s in y.calls():
             if callee_decl(callee_of(s)) != "core::ops::index::IndexMut::index_mut":
@@ -158,13 +171,18 @@ def rule_class_tables_agree(ctx):
             r.check(src_ok, anchor, "enumeration-source", "the enumeration ranges over the class list", "the enumeration does not range over the class-list parameter", s.loc())
             member = idx[0] == "elem" and ("field", step, "1") in subterms(idx) and all(l == ("field", step, "1") or l[0] != "param" or _is_param(l, R, CL) for l in leaves(idx))
             r.check(member, anchor, "index-not-member:%s" % show(idx)[:80], "the index is a member of that same class (%s)" % show(idx), "the table entry written is %s, which is not `each member of the class at that position`: members are mapped to another class's id" % show(idx), s.loc())
-            sized = any(any(_is_param(l, R, AF) for l in leaves(c)) and _calls_in(c, r"n_arguments$") for e in recv for c in _calls_in(e, r"alloc::vec::from_elem$"))
-            r.check(sized, anchor, "table-size", "the table has one entry per argument of the initial framework", "the table is not sized by the initial framework's argument count", s.loc())
-    r.floor(n_w, 1, "writes of the init->reduced table")
-    # --- reduced labels: one per class, in class order
+            sizes = [x for e in recv for c in _calls_in(e, r"alloc::vec::from_elem$") if len(c[2]) >= 2 for x in expand_params(prog, c[2][1], 2)]
+            if sizes and all(_calls_in(x, r"n_arguments$") and any(l[0] == "param" and "AAFramework<" in (prog.lib(l[1]).local_ty(l[2]) if prog.lib(l[1]) else "") + "".join(l[3]) or (l[0] == "param" and l[3] and "af" in l[3][-1]) for l in leaves(x)) for x in sizes):
+                r.ok(anchor, "the table has one entry per argument of the initial framework", s.loc())
+            elif sizes and all(x[0] == "param" or any(l[0] in ("?", "var") for l in leaves(x)) for x in sizes):
+                r.ok(anchor, "NOT decided: the size of the table (%s) is not followed to the framework" % show(sizes[0])[:60], s.loc())
+            else:
+                r.violation(anchor, "table-size", "the table is not sized by the initial framework's argument count (%s)" % (show(sizes[0])[:80] if sizes else "?"), s.loc())
+    # --- reduced labels: one per class, in class order; the list may be built by a helper that receives the class list
     lab = [s for s in R.calls() if callee_matches(callee_of(s), r"ArgumentSet::new_with_labels$")]
-    if r.require_anchor(lab, "ArgumentSet::new_with_labels in " + R.path):
+    if lab:
         for s in lab:
+            n_lab += 1
             e = _one(prov(prog, R, s.node["args"][0]))
             anchor = R.id + "|reduced-labels"
             if e is None:
@@ -190,9 +208,11 @@ def rule_class_tables_agree(ctx):
                         re_ = _one(prov(prog, cb, {"l": 0, "p": []}))
                         okm = re_ is not None and any(x[0] == "elem" and any(_is_param(l, R, CL) for l in leaves(x)) for x in subterms(re_) if isinstance(x, tuple)) and any(_is_param(l, R, AF) for l in leaves(re_))
                         r.check(okm, anchor + "|member", "label-source", "label k is the label of a member of class k in the initial framework", "the label of a reduced argument is not taken from a member of its class", cb.loc())
+    return n_w, n_lab
+
+
+def _accessors_and_constructor(prog, r, adt, fns, mod):
     # --- accessors
-    for imp in prog.impls_of_adt(TYPE) if hasattr(prog, "impls_of_adt") else []:
-        pass
     methods = {b.path.rsplit("::", 1)[-1]: b for b in fns if b.impl and b.impl.get("self_adt") == TYPE}
     rb = methods.get("reduced_arg_to_init_args")
     if r.require_anchor(rb, TYPE + "::reduced_arg_to_init_args"):
@@ -260,13 +280,31 @@ def rule_class_tables_agree(ctx):
                     r.ok(anchor, "NOT decided: fields not identified by their types / not single expressions", s.loc())
                     continue
                 ce, te, re2, ie = ex[cls_f[0]], ex[tab_f[0]], ex[red_f[0]], ex[ini_f[0]]
-                calls_r = [c for c in _calls_in(te, re.escape(R.path) + "$")]
-                same_call = te[0] == "field" and re2[0] == "field" and te[1] == re2[1] and te[1][0] == "call" and te[1][1] == R.path
-                r.check(same_call, anchor, "table-and-framework", "table and reduced framework are the two results of one call of %s" % R.path.rsplit("::", 1)[-1], "the stored table and reduced framework do not come from one call of the reduction", s.loc())
-                if same_call:
-                    args = te[1][2]
-                    r.check(len(args) > CL - 1 and args[CL - 1] == ce, anchor, "classes-differ", "the stored class list is the one handed to the reduction", "the stored class list (%s) is not the one handed to the reduction (%s)" % (show(ce)[:60], show(args[CL - 1])[:60] if len(args) > CL - 1 else "?"), s.loc())
-                    r.check(len(args) > AF - 1 and args[AF - 1] == ie, anchor, "frameworks-differ", "the stored initial framework is the one that was reduced", "the stored initial framework is not the one handed to the reduction", s.loc())
+                # every reduction helper the table / the reduced framework come from was handed the stored class list and the stored
+                # initial framework
+                fam = []
+                for tree in (te, re2):
+                    for c in [t for t in subterms(tree) if isinstance(t, tuple) and t[0] == "call"]:
+                        cb = prog.lib(c[1])
+                        if cb is None or cb.kind == "closure" or not c[1].startswith(mod + "::"):
+                            continue
+                        for k in range(1, cb.n_args + 1):
+                            ty = cb.local_ty(k)
+                            if re.match(r"^&\[.*\]$|^&alloc::vec::Vec<", ty) and mod in ty and k - 1 < len(c[2]):
+                                fam.append((cb, "classes", c[2][k - 1]))
+                            elif "AAFramework<" in ty and k - 1 < len(c[2]):
+                                fam.append((cb, "framework", c[2][k - 1]))
+                if not any(kind == "classes" for cb, kind, a in fam):
+                    r.ok(anchor, "NOT decided: the table and the reduced framework are not results of functions receiving the class list", s.loc())
+                    continue
+                for cb, kind, a in fam:
+                    if kind == "classes":
+                        r.check(a == ce, anchor, "classes-differ", "the stored class list is the one handed to %s" % cb.path.rsplit("::", 1)[-1], "the stored class list (%s) is not the one handed to %s (%s)" % (show(ce)[:60], cb.path.rsplit("::", 1)[-1], show(a)[:60]), s.loc())
+                    else:
+                        r.check(a == ie, anchor, "frameworks-differ", "the stored initial framework is the one handed to %s" % cb.path.rsplit("::", 1)[-1], "the stored initial framework is not the one handed to %s" % cb.path.rsplit("::", 1)[-1], s.loc())
+                single = te[0] == "field" and re2[0] == "field" and te[1] == re2[1]
+                split = te != re2 and not single
+                r.ok(anchor, "table and reduced framework are %s" % ("the two results of one call" if single else "results of the reduction helpers fed with the same class list"), s.loc())
     r.floor(n_c, 1, "constructions of " + TYPE)
 
 
